@@ -1,7 +1,7 @@
 (* Properties/C17.v — ACK bookkeeping, Close once, returned data is a copy. *)
 From Coq Require Import List NArith ZArith Bool.
 Import ListNotations.
-Require Import Mach AuditConsts MsgTypes AuditClient ClientProofs ChkClient ClientAckProofs ClientSpecProofs.
+Require Import Mach AuditConsts MsgTypes AuditClient ClientProofs ChkClient ClientAckProofs ClientSpecProofs ClientWalkProofs.
 Open Scope N_scope.
 
 (* when the kernel acknowledges the pending NoWait requests in order (through any
@@ -82,7 +82,19 @@ Theorem C17_wait_clause_accepts_model : forall s todo script er remaining rest,
   pending s' = remaining /\ rest' = rest /\ match e with None => ROk | Some x => RFail x end = er.
 Proof. exact c17_wait_clause_accepts_model. Qed.
 
+(* the C17 clause of the judge - the checker's own bookkeeping of pending requests, SetPID and Close, its reading of
+   WaitForPendingACKs inside and outside the fault model, the once-only Close with its PID-clearing request, the rule
+   snapshot - accepts every run of the model: every operation sequence, every kernel script, every send-fault script.
+   (judged_run feeds each call of the model to chk_c17_call exactly as the judge feeds it the implementation's calls;
+   request numbers are the model's own, which are the judge's 1, 2, 3, ... as long as they do not wrap.) *)
+Theorem C17_judge_accepts_every_run : forall ops w, judged_run k17_init cinit w ops = true.
+Proof. intros ops w. apply judged_run_ok. exact tracks_init. Qed.
+Theorem C17_judge_accepts_every_run_from : forall ops st s w, tracks s st -> judged_run st s w ops = true.
+Proof. exact judged_run_ok. Qed.
+
 Print Assumptions C17_later_close_is_noop.
+Print Assumptions C17_judge_accepts_every_run.
+Print Assumptions C17_judge_accepts_every_run_from.
 Print Assumptions C17_wait_clause_accepts_model.
 Print Assumptions C17_ack_leaves_only_when_delivered.
 Print Assumptions C17_pending_leaves_in_order.
